@@ -24,10 +24,12 @@ LEVEL_TEXT = ("Bounded relational contract on the real Pipeline.map / map_async:
               "iff force_dump or it is on its side of the executor boundary, all other arrays untouched; "
               "StorageBase.dump is an assumed contract with a ghost dump log). Category 'other' = those contracts + "
               "bounded relational checking; it is not a proof of C03.")
+LEVEL_TEXT += (" Also proved: RunInfo.storage_class (which backend an output is stored in: one for all outputs, else the output's own entry, else the default entry ''; ValueError exactly when neither exists).")
 LEVEL_NOTE = ("Schedules are sampled (reverse/random completion per generation through rtc/executors.ShuffleExecutor, "
               "real pools), not enumerated. Trusted: concurrent.futures / asyncio, the reference denotation.")
 TECHNIQUE = ("bounded relational contract checking across executor/storage/schedule configurations; leaf "
              "_executor_for_func and _update_array discharged by z3")
+TECHNIQUE += ('; RunInfo.storage_class discharged by z3')
 EXPLANATION = LEVEL_TEXT
 RULE = ("programs of rtc.progs.gen_map_program with >=2 mapped elements x configurations listed in the level text; "
         "distinct = distinct (program, configuration); non-trivial = a generation with >=2 tasks")
